@@ -4,6 +4,7 @@ from props.gossip_common import *
 from props import wire
 
 from props import bulk_probe
+from props import consts_common
 ID = "C13"
 COQ_TARGETS = ["Run/Run_Gossip.vo", "Run/Run_Codec.vo"]
 META = {
@@ -405,6 +406,11 @@ def run(ctx):
            "monitor": {"codec_contents": len(ccases), "histories": len(allc), "raw_hostile": len(raws), "raw_accepted_without_error": nacc,
                        "failures": len(cmon) + len(wmon)}}
     cov["glue_probes"] = gcov
+    # translator half of the tie: the constants of the current source, regenerated; the theorems on them re-checked
+    ccov, cviol = consts_common.regen(ctx, ID, binary)
+    cov["source_constants"] = ccov
+    if cviol and not any(v.get("found_input") for v in violations):
+        violations.append(cviol)
     # bulk synchronisation over the datagram path (hundreds to thousands of entries; monitor only)
     bcov, bv = bulk_probe.run(ctx, ID)
     cov["bulk_pull"] = bcov
